@@ -1344,7 +1344,8 @@ uint64_t _GD_FindVersion(DIRFILE *D)
   for (i = 0; D->av && i < D->n_entries; ++i) {
     if (D->entry[i]->flags & GD_EN_HIDDEN)
       D->av &= GD_VERS_GE_9;
-    else
+
+    if (D->av)
       switch (D->entry[i]->field_type) {
         case GD_RAW_ENTRY:
           switch (D->entry[i]->EN(raw,data_type)) {
